@@ -111,6 +111,10 @@ def known_family(case, m, prop=None):
             fam = fam.split("#")[0]
             if prop == "C01":
                 continue
+        if fam.endswith("#wide"):
+            fam = fam[:-len("#wide")]
+            if prop in NARROW_MEASURED_FOR:
+                continue
         if fam.endswith("#loop-clause"):
             # clause (b) of F-P only counts for the properties for which a
             # violating replay of that clause is listed
@@ -182,13 +186,76 @@ def _families_of(case, m):
     if "break_loop_tail_of_fork_ending_loop" in f:
         out.append("PV-F-C2-break-loop-ends-fork-branch-ending-loop-body")
     if not m.complete and not m.too_large:
+        # "#wide": inside the first, wide statement of the predicate but
+        # outside the measured narrow one (a maximal successor/predecessor
+        # set never shown although part of it is, or a loop-back step never
+        # shown); only counts for the properties the narrow statement was
+        # not measured for
+        narrow = narrow_partial_view(m.all_jobs, m.jobs, m.ast)
         if partial_fork_or_join(m.all_jobs, m.jobs, (), m.ast):
-            out.append("PV-F-P-subset-shows-fork-join-or-loop-partly")
+            out.append("PV-F-P-subset-shows-fork-join-or-loop-partly"
+                       + ("" if narrow else "#wide"))
         elif partial_fork_or_join(m.all_jobs, m.jobs,
                                   loop_event_names(m.ast), m.ast):
             out.append("PV-F-P-subset-shows-fork-join-or-loop-partly"
-                       "#loop-clause")
+                       "#loop-clause" + ("" if narrow else "#wide"))
     return out
+
+
+NARROW_MEASURED_FOR = ("C01", "C05", "C07")
+
+
+def _job_edges(jobs):
+    out = set()
+    for j in jobs:
+        for t, prev in j:
+            for p in prev:
+                out.add((j[p][0], t))
+    return out
+
+
+def narrow_partial_view(all_jobs, jobs, ast):
+    """The measured core of F-P (1957 drawn subset cases inside the wide
+    predicate, 47 of them violating C01/C05, every one of them in here, 1318
+    passing ones outside): (1) for some event type (or the job start) a
+    *maximal* set of its complete successor or predecessor family with >=2
+    events is never observed although some subset of it is - for plain
+    forks outside loops the finer clique rule is used instead; or (2) some
+    step from an event of a loop body back to the first event of that body
+    is never observed although the definition has it (the alternative then
+    looks like a break path)."""
+    cs, cp = _families(all_jobs)
+    ss, sp = _families(jobs)
+    after, before = plain_fork_neighbours(ast)
+    loopn = loop_event_names(ast)
+    for sub, comp, plain in ((ss, cs, after), (sp, cp, before)):
+        for t, s in sub.items():
+            c = comp.get(t, set())
+            if s == c or not any(len(x) >= 2 for x in c):
+                continue
+            for mx in [x for x in c if len(x) >= 2
+                       and not any(x < y for y in c)]:
+                under = [x for x in s if x <= mx]
+                if not under:
+                    continue
+                if t in plain and t not in loopn:
+                    if len(mx) <= 3:
+                        if _unobserved_clique(under):
+                            return True
+                    elif frozenset().union(*under) not in s:
+                        return True
+                elif mx not in s:
+                    return True
+    missing = _job_edges(all_jobs) - _job_edges(jobs)
+    if missing:
+        for n in ps.walk(ast):
+            if isinstance(n, ps.Loop) and n.body.items and \
+                    isinstance(n.body.items[0], ps.Ev):
+                body = set(ps.event_names(n.body))
+                head = n.body.items[0].name
+                if any(a in body and b == head for a, b in missing):
+                    return True
+    return False
 
 
 def _families(jobs):
